@@ -137,9 +137,9 @@ pub fn on_state(st: &hist::HState, scratch: &crate::util::Scratch, srcs: &crate:
     out
 }
 
-/// Second state rider: a backup during which one read of the archive fails must leave the same
-/// archive however the concurrent reads of that backup are scheduled. The next backup of the
-/// state's source is traced once; then, for every directory listing (thorough: every read) it
+/// Second state rider: a backup or gc during which one read of the archive fails must leave the
+/// same archive however the concurrent reads of that operation are scheduled. The next backup of the
+/// state's source (and a gc) is traced once; then, for every directory listing (thorough: every read) it
 /// makes, it is replayed from the same snapshot with exactly that operation failing - once on the
 /// current-thread runtime, where sibling tasks complete in the order they were spawned and the
 /// failure comes at once, and once on a two-worker runtime with the failure delayed until its
@@ -153,50 +153,62 @@ fn faulty_backup_rider(st: &hist::HState, scratch: &crate::util::Scratch, srcs: 
     }
     let src = srcs.dir_for(&st.src.tree());
     let opts = hist::opts_of(0);
-    let probe = scratch.fresh("fp");
-    st.snap.store(&probe);
-    let icpt = crate::hook::Icpt::new(&probe, crate::hook::Plan::none());
-    let _ = run::do_backup(&probe, &src, &opts, Some(&icpt), Flavor::Current);
-    let mut sites: Vec<(Verb, String)> = Vec::new();
-    for r in icpt.take_log() {
-        let wanted = r.verb == Verb::ListDir || (THOROUGH.load(Ordering::Relaxed) == 1 && matches!(r.verb, Verb::Read | Verb::Metadata));
-        if wanted && !sites.contains(&(r.verb, r.path.clone())) {
-            sites.push((r.verb, r.path.clone()));
-        }
-    }
-    let _ = std::fs::remove_dir_all(&probe);
-    for (verb, path) in sites {
-        let mut results = Vec::new();
-        for (flavor, delay) in [(Flavor::Current, 0u64), (Flavor::Multi(2), 5)] {
-            let dir = scratch.fresh("fb");
-            st.snap.store(&dir);
-            let plan = crate::hook::Plan {
-                fail_path: Some((verb, path.clone(), conserve::transport::ErrorKind::Other, delay)),
-                ..Default::default()
+    for what in ["backup", "gc"] {
+        // one operation on a copy of the state's archive, with an optional plan
+        let exec = |dir: &std::path::Path, plan: crate::hook::Plan, flavor: Flavor| -> (bool, String, Vec<crate::hook::OpRec>) {
+            let icpt = crate::hook::Icpt::new(dir, plan);
+            let (ok, desc) = if what == "backup" {
+                let o = run::do_backup(dir, &src, &opts, Some(&icpt), flavor);
+                (o.ok_stats().is_some(), o.describe())
+            } else {
+                let o = run::do_delete(dir, &[], false, false, Some(&icpt), flavor, None);
+                (o.op.is_ok(), o.op.describe())
             };
-            let icpt = crate::hook::Icpt::new(&dir, plan);
-            let o = run::do_backup(&dir, &src, &opts, Some(&icpt), flavor);
-            REEXEC.fetch_add(1, Ordering::Relaxed);
-            results.push((o.ok_stats().is_some(), Snap::load(&dir).canonical(), o.describe()));
-            let _ = std::fs::remove_dir_all(&dir);
+            (ok, desc, icpt.take_log())
+        };
+        let probe = scratch.fresh("fp");
+        st.snap.store(&probe);
+        let (_, _, log) = exec(&probe, crate::hook::Plan::none(), Flavor::Current);
+        let mut sites: Vec<(Verb, String)> = Vec::new();
+        for r in log {
+            let wanted = r.verb == Verb::ListDir || (THOROUGH.load(Ordering::Relaxed) == 1 && matches!(r.verb, Verb::Read | Verb::Metadata));
+            if wanted && !sites.contains(&(r.verb, r.path.clone())) {
+                sites.push((r.verb, r.path.clone()));
+            }
         }
-        if results[0].0 != results[1].0 || results[0].1 != results[1].1 {
-            out.push((
-                Violation::new(
-                    "C17:archive-differs-between-replays:backup-with-a-failing-read",
-                    format!(
-                        "seed {} after {:?}: backup of the same source with {} of {path} failing, replayed from the same snapshot on the current-thread runtime ({}) and on two workers with the failure delayed ({}): {}",
-                        st.seed,
-                        st.describe_path(),
-                        crate::hook::verb_name(verb),
-                        results[0].2,
-                        results[1].2,
-                        first_difference(&results[0].1, &results[1].1)
+        let _ = std::fs::remove_dir_all(&probe);
+        for (verb, path) in sites {
+            let mut results = Vec::new();
+            for (flavor, delay) in [(Flavor::Current, 0u64), (Flavor::Multi(2), 5)] {
+                let dir = scratch.fresh("fb");
+                st.snap.store(&dir);
+                let plan = crate::hook::Plan {
+                    fail_path: Some((verb, path.clone(), conserve::transport::ErrorKind::Other, delay)),
+                    ..Default::default()
+                };
+                let (ok, desc, _) = exec(&dir, plan, flavor);
+                REEXEC.fetch_add(1, Ordering::Relaxed);
+                results.push((ok, Snap::load(&dir).canonical(), desc));
+                let _ = std::fs::remove_dir_all(&dir);
+            }
+            if results[0].0 != results[1].0 || results[0].1 != results[1].1 {
+                out.push((
+                    Violation::new(
+                        format!("C17:archive-differs-between-replays:{what}-with-a-failing-read"),
+                        format!(
+                            "seed {} after {:?}: {what} with {} of {path} failing, replayed from the same snapshot on the current-thread runtime ({}) and on two workers with the failure delayed ({}): {}",
+                            st.seed,
+                            st.describe_path(),
+                            crate::hook::verb_name(verb),
+                            results[0].2,
+                            results[1].2,
+                            first_difference(&results[0].1, &results[1].1)
+                        ),
                     ),
-                ),
-                hist::case_json("C17", st.seed, &st.path),
-            ));
-            break;
+                    hist::case_json("C17", st.seed, &st.path),
+                ));
+                break;
+            }
         }
     }
 }
